@@ -9,7 +9,11 @@ the code under test and never alter results.
 Every wrapper counts its evaluations; a deciding monitor with zero evaluations makes the
 run inconclusive (references bound before attachment bypass the wrapper).
 """
+import contextlib
 import functools
+
+import numpy as np
+import warnings
 import sys
 import traceback
 from collections import Counter
@@ -32,6 +36,33 @@ class Call:
 
 def _harness_fault(op, where):
     MONITOR_ERRORS.append((op, where, traceback.format_exc()))
+
+
+STRICT = {"n": 0}
+
+
+@contextlib.contextmanager
+def strict_settings():
+    """Process-wide settings a user may legitimately choose, for the duration of some library calls: floating-point
+    division by zero / invalid operations raise (np.errstate) and UserWarnings are errors.  The monitors' own hooks and
+    oracles run under ordinary settings (see _harness_env)."""
+    STRICT["n"] += 1
+    try:
+        with np.errstate(divide="raise", invalid="raise"), warnings.catch_warnings():
+            warnings.simplefilter("error", UserWarning)
+            yield
+    finally:
+        STRICT["n"] -= 1
+
+
+@contextlib.contextmanager
+def _harness_env():
+    if not STRICT["n"]:
+        yield
+        return
+    with np.errstate(divide="warn", over="warn", under="ignore", invalid="warn"), warnings.catch_warnings():
+        warnings.simplefilter("ignore")
+        yield
 
 
 def attach(owner, name, post=None, pre=None, op=None, is_method=True, reentrant=False):
@@ -61,7 +92,8 @@ def attach(owner, name, post=None, pre=None, op=None, is_method=True, reentrant=
         if pre is not None:
             _DEPTH["n"] += 1
             try:
-                c.state = pre(c)
+                with _harness_env():
+                    c.state = pre(c)
             except Exception:
                 _harness_fault(opname, "pre")
             finally:
@@ -74,7 +106,8 @@ def attach(owner, name, post=None, pre=None, op=None, is_method=True, reentrant=
         if post is not None:
             _DEPTH["n"] += 1
             try:
-                post(c)
+                with _harness_env():
+                    post(c)
             except Exception:
                 _harness_fault(opname, "post")
             finally:
